@@ -212,16 +212,31 @@ def run_case(case):
             subsets += list(itertools.combinations(interior, k))[:5]
     subsets = list(dict.fromkeys(subsets))[:16]
     for fixed in subsets:
-        for by in ("index", "position"):
+        for by in ("index", "position", "index+index", "position+index", "index+position"):
             for iters in (1, 2, 5, 50, 200):
-                if by == "position" and iters not in (1, 200):
+                if by != "index" and iters not in (1, 200):
+                    continue
+                if "+" in by and len(fixed) < 2:
                     continue
                 execs += 1
                 sm, obj = make_smoother(pos, cells, dim)
                 if by == "index":
                     sm.fix_indexes([inv[i] for i in fixed])
-                else:
+                elif by == "position":
                     sm.fix_points([pos[i] for i in fixed])
+                else:
+                    # the same set given in two calls, mixed kinds
+                    half = len(fixed) // 2
+                    first, second = fixed[:half], fixed[half:]
+                    if by == "index+index":
+                        sm.fix_indexes([inv[i] for i in first])
+                        sm.fix_indexes([inv[i] for i in second])
+                    elif by == "position+index":
+                        sm.fix_points([pos[i] for i in first])
+                        sm.fix_indexes([inv[i] for i in second])
+                    else:
+                        sm.fix_indexes([inv[i] for i in first])
+                        sm.fix_points([pos[i] for i in second])
                 try:
                     sm.smooth(iters)
                 except Exception as err:
